@@ -11,7 +11,7 @@ U64_MAX = (1 << 64) - 1
 # level A: instruction kinds (program code, discriminator symbol or number, data length, account0 code)
 KINDS = {
     "cb": (0, "2", 5, 0), "cb9": (0, "SL", 9, 0),
-    "SL1": (1, "SL", 8, 1), "SL2": (1, "SL", 8, 2), "EL1": (1, "EL", 8, 1), "EL2": (1, "EL", 8, 2),
+    "SL1": (1, "SL", 8, 1), "SL2": (1, "SL", 8, 2), "SL1x": (1, "SL", 9, 1), "SL2x": (1, "SL", 12, 2), "EL2x": (1, "EL", 9, 2), "EL1": (1, "EL", 8, 1), "EL2": (1, "EL", 8, 2),
     "SD1": (1, "SD", 8, 1), "ED1": (1, "ED", 8, 1),
     "WD": (1, "WD", 17, 7), "RP": (1, "RP", 17, 7), "IR": (1, "IR", 8, 1), "KW": (1, "KW", 16, 7), "DW": (1, "DW", 16, 7),
     "BR": (1, "BR", 16, 7), "DP": (1, "DP", 17, 7), "LQ": (1, "LQ", 18, 7), "SE": (1, "SE", 8, 1), "SW": (1, "SW", 16, 7),
@@ -31,6 +31,7 @@ END = {"liq": "EL", "delev": "ED"}
 ALPHABETS = {
     "liq": ["cb", "SL1", "EL1", "WD", "RP", "IR", "BR", "krr", "jup"],
     "liq2": ["SL1", "EL1", "jupEL", "SD1", "ED1", "ata", "sys", "ms3", "kx"],
+    "liq3": ["SL1", "SL2x", "SL1x", "EL2", "EL2x", "WD", "cb"],
     "fl": ["cb", "SF1", "EF1", "EF2", "BR", "jupEF", "frnEF", "EF0", "EFs"],
     "small": ["cb", "SL1", "EL1", "WD"],
     "small_fl": ["SF1", "EF1", "BR", "jup"],
